@@ -103,7 +103,7 @@ Definition vmap := PositiveMap.t Z.
 
 Inductive err :=
   | EUnknown (code : Z) | ENeedHash (d : list Z) | EBounds | EExternal | EUndef | EArity | EFuel | EBadLabel
-  | EFallthrough | EHuge.
+  | EFallthrough | EHuge | EPoison (k : Z).   (* poison consumed by: 1 branch 2 assert 4 key 5 hash 6 index 7 fmp *)
 
 Inductive R (A : Type) := Ok (a : A) | Err (e : err).
 Arguments Ok {A} _.
@@ -123,17 +123,28 @@ Definition no_oracle : oracle := fun _ _ _ => None.
 Definition MEMLIMIT : Z := 2 ^ 72.
 Definition SIZELIMIT : Z := 2 ^ 16.
 
+(* Uninitialised memory.  Before ConcretizeMemLocPass every `alloca` is its own region (the exporter places them from
+   ALLOCA_BASE upwards, far apart); reading a byte of such a region that was never written is undefined in Venom (the
+   concretised layout overlaps regions that are not live together), which is modelled by the poison byte/word POISON:
+   poison is contagious through arithmetic, cannot be branched on / used as an address or key / hashed (=> HStuck), and
+   an observation containing poison is refined by any value (obs_cmp).  Concrete low memory is zero-initialised (EVM). *)
+Definition POISON : Z := -1.
+Definition ALLOCA_BASE : Z := 2 ^ 36.
+Definition mget (m : bmap) (a : Z) : Z :=
+  match PositiveMap.find (kpos a) m with Some v => v | None => if ALLOCA_BASE <=? a then POISON else 0 end.
+
 Fixpoint mread (m : bmap) (a : Z) (n : nat) : list Z :=
-  match n with O => [] | S k => zget m a :: mread m (a + 1) k end.
+  match n with O => [] | S k => mget m a :: mread m (a + 1) k end.
 
 Fixpoint mwrite (m : bmap) (a : Z) (bs : list Z) : bmap :=
   match bs with [] => m | b :: t => mwrite (zset m a b) (a + 1) t end.
 
-Definition bytes_to_word (bs : list Z) : Z := fold_left (fun acc b => acc * 256 + b) bs 0.
+Definition has_poison (l : list Z) : bool := existsb (fun x => x <? 0) l.
+Definition bytes_to_word (bs : list Z) : Z := if has_poison bs then POISON else fold_left (fun acc b => acc * 256 + b) bs 0.
 
 Fixpoint word_to_bytes_aux (n : nat) (w : Z) (acc : list Z) : list Z :=
   match n with O => acc | S k => word_to_bytes_aux k (w / 256) ((w mod 256) :: acc) end.
-Definition word_to_bytes (w : Z) : list Z := word_to_bytes_aux 32 w [].
+Definition word_to_bytes (w : Z) : list Z := if w <? 0 then repeat POISON 32 else word_to_bytes_aux 32 w [].
 
 Fixpoint take_pad (n : nat) (l : list Z) : list Z :=
   match n with O => [] | S k => match l with [] => 0 :: take_pad k [] | x :: t => x :: take_pad k t end end.
@@ -151,7 +162,7 @@ Fixpoint list_eqb (a b : list Z) : bool :=
 Fixpoint hash_lookup (t : list (list Z * Z)) (d : list Z) : option Z :=
   match t with [] => None | (k, v) :: r => if list_eqb k d then Some v else hash_lookup r d end.
 
-Definition okaddr (a n : Z) : bool := (a + n <=? MEMLIMIT) && (n <=? SIZELIMIT).
+Definition okaddr (a n : Z) : bool := (0 <=? a) && (0 <=? n) && (a + n <=? MEMLIMIT) && (n <=? SIZELIMIT).
 
 (* ---------------------------------------------------------------- semantic footprints of the simple instructions *)
 Definition sem_reads (o : opc) : list eff :=
@@ -191,7 +202,7 @@ Definition is_simple (o : opc) : bool :=
   end.
 
 (* ---------------------------------------------------------------- semantics of simple instructions on the store *)
-Definition arith (o : opc) (a : list Z) : option Z :=
+Definition arith0 (o : opc) (a : list Z) : option Z :=
   match o, a with
   | O_add, [x; y] => Some (w_add x y) | O_sub, [x; y] => Some (w_sub x y) | O_mul, [x; y] => Some (w_mul x y)
   | O_div, [x; y] => Some (w_div x y) | O_sdiv, [x; y] => Some (w_sdiv x y) | O_mod, [x; y] => Some (w_mod x y)
@@ -205,6 +216,12 @@ Definition arith (o : opc) (a : list Z) : option Z :=
   | O_assign, [x] => Some x
   | O_alloca, [x] => Some x
   | _, _ => None
+  end.
+
+Definition arith (o : opc) (a : list Z) : option Z :=
+  match o with
+  | O_assign | O_alloca => arith0 o a
+  | _ => match arith0 o a with Some v => Some (if has_poison a then POISON else v) | None => None end
   end.
 
 Definition set_mem (s : store) (m : bmap) : store :=
@@ -235,13 +252,15 @@ Definition eff_sem (E : env) (X : oracle) (o : opc) (a : list Z) (s : store) : R
   | O_nop, _ => Ok ([], s)
   | O_env k, [] => match nth_error (e_words E) k with Some v => Ok ([v], s) | None => Err (EUnknown (Z.of_nat k)) end
   | O_calldatasize, [] => Ok ([Z.of_nat (length (e_calldata E))], s)
-  | O_calldataload, [i] => Ok ([bytes_to_word (slice_pad (e_calldata E) i 32)], s)
+  | O_calldataload, [i] => if i <? 0 then Err (EPoison 6) else Ok ([bytes_to_word (slice_pad (e_calldata E) i 32)], s)
   | O_calldatacopy, [dst; src; n] =>
-      if okaddr dst n then Ok ([], set_mem s (mwrite (s_mem s) dst (slice_pad (e_calldata E) src (Z.to_nat n)))) else Err EHuge
+      if okaddr dst n && (0 <=? src) then Ok ([], set_mem s (mwrite (s_mem s) dst (slice_pad (e_calldata E) src (Z.to_nat n))))
+      else Err EHuge
   | O_codecopy, [dst; src; n] =>
-      if okaddr dst n then Ok ([], set_mem s (mwrite (s_mem s) dst (code_read (e_code E) src (Z.to_nat n)))) else Err EHuge
-  | O_bump, [size; fmp_in] => Ok ([fmp_in; w_add fmp_in size], s)
-  | O_dalloca, [size] => Ok ([s_fmp s], set_fmp s (w_add (s_fmp s) (ceil32 size)))
+      if okaddr dst n && (0 <=? src) then Ok ([], set_mem s (mwrite (s_mem s) dst (code_read (e_code E) src (Z.to_nat n))))
+      else Err EHuge
+  | O_bump, [size; fmp_in] => if (size <? 0) || (fmp_in <? 0) then Err (EPoison 7) else Ok ([fmp_in; w_add fmp_in size], s)
+  | O_dalloca, [size] => if size <? 0 then Err (EPoison 7) else Ok ([s_fmp s], set_fmp s (w_add (s_fmp s) (ceil32 size)))
   | O_getfmp, [] => Ok ([s_fmp s], s)
   | O_setfmp, [v] => Ok ([], set_fmp s v)
   | O_mload, [p] => if okaddr p 32 then Ok ([bytes_to_word (mread (s_mem s) p 32)], s) else Err EHuge
@@ -253,13 +272,14 @@ Definition eff_sem (E : env) (X : oracle) (o : opc) (a : list Z) (s : store) : R
       if okaddr q 32 then Ok ([bytes_to_word (mread (s_mem s) q 32)], s) else Err EHuge
   | O_istore, [p; v] => let q := e_immbase E + p in
       if okaddr q 32 then Ok ([], set_mem s (mwrite (s_mem s) q (word_to_bytes v))) else Err EHuge
-  | O_sload, [k] => Ok ([zget (s_sto s) k], s)
-  | O_sstore, [k; v] => Ok ([], set_sto s (zset (s_sto s) k v))
-  | O_tload, [k] => Ok ([zget (s_tra s) k], s)
-  | O_tstore, [k; v] => Ok ([], set_tra s (zset (s_tra s) k v))
+  | O_sload, [k] => if k <? 0 then Err (EPoison 4) else Ok ([zget (s_sto s) k], s)
+  | O_sstore, [k; v] => if k <? 0 then Err (EPoison 4) else Ok ([], set_sto s (zset (s_sto s) k v))
+  | O_tload, [k] => if k <? 0 then Err (EPoison 4) else Ok ([zget (s_tra s) k], s)
+  | O_tstore, [k; v] => if k <? 0 then Err (EPoison 4) else Ok ([], set_tra s (zset (s_tra s) k v))
   | O_sha3, [p; n] =>
       if okaddr p n then
         let d := mread (s_mem s) p (Z.to_nat n) in
+        if has_poison d then Err (EPoison 5) else
         match hash_lookup (e_hash E) d with Some h => Ok ([h], s) | None => Err (ENeedHash d) end
       else Err EHuge
   | O_log, p :: n :: rest =>
@@ -269,7 +289,7 @@ Definition eff_sem (E : env) (X : oracle) (o : opc) (a : list Z) (s : store) : R
       else Err EHuge
   | O_returndatasize, [] => Ok ([Z.of_nat (length (s_rd s))], s)
   | O_returndatacopy, [dst; src; n] =>
-      if okaddr dst n && (src + n <=? Z.of_nat (length (s_rd s))) then
+      if okaddr dst n && (0 <=? src) && (src + n <=? Z.of_nat (length (s_rd s))) then
         Ok ([], set_mem s (mwrite (s_mem s) dst (slice_pad (s_rd s) src (Z.to_nat n))))
       else Err EBounds
   | (O_call | O_staticcall | O_delegatecall | O_create | O_create2
@@ -326,7 +346,9 @@ Definition exec_inst (E : env) (X : oracle) (i : inst) (vs : vmap) (st : store) 
   | O_jnz =>
       match i_args i with
       | [c; OLab t; OLab e] =>
-          match eval_op vs c with Some v => SJump (if v =? 0 then e else t) vs st | None => SHalt (HStuck EUndef) st end
+          match eval_op vs c with
+          | Some v => if v <? 0 then SHalt (HStuck (EPoison 1)) st else SJump (if v =? 0 then e else t) vs st
+          | None => SHalt (HStuck EUndef) st end
       | _ => SHalt (HStuck EArity) st
       end
   | O_djmp =>
@@ -345,14 +367,14 @@ Definition exec_inst (E : env) (X : oracle) (i : inst) (vs : vmap) (st : store) 
   | O_assert =>
       match i_args i with
       | [c] => match eval_op vs c with
-               | Some v => if v =? 0 then SHalt (HRevert []) st else SNext vs st
+               | Some v => if v <? 0 then SHalt (HStuck (EPoison 2)) st else if v =? 0 then SHalt (HRevert []) st else SNext vs st
                | None => SHalt (HStuck EUndef) st end
       | _ => SHalt (HStuck EArity) st
       end
   | O_assert_unreachable =>
       match i_args i with
       | [c] => match eval_op vs c with
-               | Some v => if v =? 0 then SHalt HInvalid st else SNext vs st
+               | Some v => if v <? 0 then SHalt (HStuck (EPoison 2)) st else if v =? 0 then SHalt HInvalid st else SNext vs st
                | None => SHalt (HStuck EUndef) st end
       | _ => SHalt (HStuck EArity) st
       end
@@ -450,25 +472,34 @@ Definition observe (init : store) (r : halt * store) : obs :=
   | HStuck _ => mkObs 4 [] [] [] []
   end.
 
-Fixpoint kv_eqb (a b : list (positive * Z)) : bool :=
+(* refinement: `a` (before) may contain poison, which any value of `b` (after) refines *)
+Definition val_ref (x y : Z) : bool := (x <? 0) || (x =? y).
+
+Fixpoint list_ref (a b : list Z) : bool :=
   match a, b with
   | [], [] => true
-  | (k, v) :: s, (k', v') :: t => Pos.eqb k k' && (v =? v') && kv_eqb s t
+  | x :: s, y :: t => val_ref x y && list_ref s t
   | _, _ => false
   end.
 
-Fixpoint logs_eqb (a b : list logent) : bool :=
+Definition pget (l : list (positive * Z)) (k : positive) : Z :=
+  match find (fun kv => Pos.eqb (fst kv) k) l with Some kv => snd kv | None => 0 end.
+
+Definition kv_ref (a b : list (positive * Z)) : bool :=
+  forallb (fun kv => val_ref (snd kv) (pget b (fst kv))) a && forallb (fun kv => val_ref (pget a (fst kv)) (snd kv)) b.
+
+Fixpoint logs_ref (a b : list logent) : bool :=
   match a, b with
   | [], [] => true
-  | (t, d) :: s, (t', d') :: r => list_eqb t t' && list_eqb d d' && logs_eqb s r
+  | (t, d) :: s, (t', d') :: r => list_ref t t' && list_ref d d' && logs_ref s r
   | _, _ => false
   end.
 
-(* 0 = equal observations, 1 = at least one side not an observation (stuck / out of fuel), 2 = DIFFERENT *)
+(* 0 = b refines a (equal when a has no poison), 1 = at least one side not an observation (stuck / out of fuel), 2 = DIFFERENT *)
 Definition obs_cmp (a b : obs) : Z :=
   if (ob_code a >=? 4) || (ob_code b >=? 4) then 1
-  else if (ob_code a =? ob_code b) && list_eqb (ob_data a) (ob_data b) && logs_eqb (ob_logs a) (ob_logs b)
-          && kv_eqb (ob_sto a) (ob_sto b) && kv_eqb (ob_tra a) (ob_tra b) then 0 else 2.
+  else if (ob_code a =? ob_code b) && list_ref (ob_data a) (ob_data b) && logs_ref (ob_logs a) (ob_logs b)
+          && kv_ref (ob_sto a) (ob_sto b) && kv_ref (ob_tra a) (ob_tra b) then 0 else 2.
 
 (* flat rendering for the harness: [code; |data|; data...; |logs|; (|topics|; topics...; |d|; d...)*; |sto|; (k; v)*; |tra|; (k; v)*] *)
 Definition render_kv (l : list (positive * Z)) : list Z :=
@@ -486,7 +517,7 @@ Definition stuck_info (r : halt * store) : list Z :=
   | HStuck (EUnknown c) => [1; c]
   | HStuck (ENeedHash d) => 2 :: d
   | HStuck EBounds => [3] | HStuck EExternal => [4] | HStuck EUndef => [5] | HStuck EArity => [6] | HStuck EFuel => [7]
-  | HStuck EBadLabel => [8] | HStuck EFallthrough => [9] | HStuck EHuge => [10]
+  | HStuck EBadLabel => [8] | HStuck EFallthrough => [9] | HStuck EHuge => [10] | HStuck (EPoison k) => [11; k]
   | _ => [0]
   end.
 
